@@ -291,6 +291,20 @@ func TestVerifEpochData(t *testing.T) {
 					phase = "/after-pruning"
 					liveOnly = func(x int) bool { return x != 0 && rootOf(x) == fin }
 					lookups()
+					// ... and after the node's finalisation handler ran for that block (dot/digest.Handler calls these two for every
+					// finalised header): only an announcement made ON THE FINALISED CHAIN may be made the stored definition of the next
+					// epoch; announcements of still-competing forks below the finalised block stay what they are, each visible to its
+					// own descendants only.  (Finding nothing to persist is an answer, not a failure: the result is not compared.)
+					pm := vTry(func() {
+						_ = es.FinalizeBABENextEpochData(hdr[fin])
+						_ = es.FinalizeBABENextConfigData(hdr[fin])
+					})
+					if pm != "" {
+						res.Fail(b.ID, si, "Finalize", "FinalizeBABENext*", "no panic", pm, "C26/Finalize/panic", prefix)
+					} else {
+						phase = "/after-finalising-epoch-data"
+						lookups()
+					}
 				}
 			}
 		}
